@@ -65,7 +65,7 @@ PEAK_COUNTERS = ("peak_finish_rounds", "peak_payload_bytes")
 ROLES = ["Client", "ClientTls", "Remoter", "RemoterTls"]
 STALL = 60          # consecutive rounds in which nothing at all moved => the connection is not making progress
 CONNECT_ROUNDS = 400
-NCASES = {"quick": 2400, "thorough": 24000}
+NCASES = {"quick": 1600, "thorough": 20000}
 
 
 # --------------------------------------------------------------------------
@@ -449,8 +449,9 @@ def connect_client_raw(case, ctx, cl):
         guarded(ctx, role, client.service, mon)
         if peer is None:
             try:
-                s, _a = ls.accept()
-                peer = cl.add(tk.RawPeer(s, tk.peer_server_ctx() if tls else None, server_side=True))
+                s = tk.accept_from(ls, client.cs)
+                if s is not None:
+                    peer = cl.add(tk.RawPeer(s, tk.peer_server_ctx() if tls else None, server_side=True))
             except BlockingIOError:
                 pass
         else:
@@ -473,8 +474,10 @@ def connect_remoter_raw(case, ctx, cl):
     server = cl.add(tk.open_server(tcp, _state["ports"], tls=tls, wl=wl, bs=case["bs"], tymth=tyming.Tymist().tymen()))
     _tune(server.ss, case)  # accepted sockets inherit the listener's buffer sizes
     script = mk_script(case["near"], role)
-    sh.expect_accept(server.ss, lambda addr: script)
+    mine = []   # only OUR peer's accepted socket gets the script (other agents share this loopback)
+    sh.expect_accept(server.ss, lambda addr: script if mine and addr == mine[0] else None)
     peer = cl.add(tk.connect_peer(server.ha[1], tls=tls, rcvbuf=case.get("peer_rcvbuf")))
+    mine.append(peer.addr)   # hio accepts only inside the service calls below
     for _ in range(CONNECT_ROUNDS):
         guarded(ctx, role, server.service)
         peer.step_handshake()
@@ -497,7 +500,7 @@ def connect_pair(case, ctx, cl):
     wls, wlc = cl.add(mk_wl()), cl.add(mk_wl())
     server = cl.add(tk.open_server(tcp, _state["ports"], tls=tls, wl=wls, bs=case["bs"], tymth=tyming.Tymist().tymen()))
     rscript = mk_script(case["far"], rrole)
-    sh.expect_accept(server.ss, lambda addr: rscript)
+    sh.expect_accept(server.ss, lambda addr: rscript if client.cs is not None and addr == client.cs.getsockname() else None)
     client = cl.add(tk.open_client(tcp, server.ha[1], tls=tls, wl=wlc, bs=case["bs"], tymth=tyming.Tymist().tymen()))
     cscript = sh.register(client.cs, mk_script(case["near"], crole))
     cmon = Mon(ctx, crole, client, client.service, cscript, wlc)
